@@ -57,6 +57,7 @@ T_C08_KidsFirst_strict == P!KidsFirst(Log, Issued, Events, FALSE)
 T_C08_NotDoneEarly_strict == P!NotDoneEarly(Log, Done, Issued, Events, FALSE)
 T_C13 == P!ChainAlways(Log)
 T_C10 == /\ P!LiveResolvable(Log) /\ P!IncOrder(Log) /\ P!AtMostOnce(Log) /\ P!InOrder(Log)
+         /\ R.witness      \* a live actor whose id merely extends a model actor's id still answers
          /\ Cardinality({i \in 1..Len(Events) : Events[i].e = "DuplicateId"}) = R.dupspawns
          /\ \A a \in Actors : R.producers[a] = Cardinality({Log[i].inc : i \in {k \in 1..Len(Log) : Log[k].a = a}})
 =============================================================================
